@@ -236,7 +236,9 @@ func execOmni(s omniSched, dir string, seed int64) ([]any, error) {
 		} else {
 			h = sl.TilesHandler()
 		}
-		sv := httptest.NewServer(h)
+		// in front of the log: nothing, a compressing front end or a redirect to a canonical location (fixed per schedule and log)
+		front := []string{"plain", "gzip", "redirect"}[int(hashSeed(tag+"/front/"+name, seed)%3)]
+		sv := httptest.NewServer(stublog.FrontEnd(h, front))
 		servers = append(servers, sv)
 		url := sv.URL
 		if s.Types[i] == "tiles" {
